@@ -690,6 +690,14 @@ func zzC01eEndToEnd() {
 		vf.Assert("flush-ok", up.Flush(ctx) == nil)
 		vf.Settle()
 	}
+	// a Flush whose caller gives up (context already ended: it is abandoned before or while the
+	// flush loop serves it, every ready select arm explored) must not disturb what follows
+	if vf.Choose("abandoned.flush", 2) == 1 {
+		gone, cancel := context.WithCancel(ctx)
+		cancel()
+		up.Flush(gone)
+		vf.Settle()
+	}
 	write(idA, "w3", 1)
 	if batchAcks {
 		// the broker acknowledges everything received so far in one (reordered) batch when the stream drains
@@ -1669,5 +1677,156 @@ func zzC08gNoHeadOfLineBlocking() {
 	vf.Settle()
 	vf.Advance(time.Second + 100*time.Millisecond)
 	vf.Assert("close-returns-by-its-deadline", closed)
+	vf.Reach("end")
+}
+
+// C03.f: a lagging consumer. The broker sends several chunks before the application reads any of
+// them; a chunk that uses an upstream alias (or a data-id alias) the client has not announced is an
+// error and is never delivered with the attribution of a *later* chunk's full form; the chunks after
+// it are returned in order, correctly resolved.
+func zzC03fLaggingConsumer() {
+	b := zzNewBroker()
+	zzServeStreams(b)
+	conn := zzConnect(b)
+	tr := b.last()
+	ctx := context.Background()
+	down, err := conn.OpenDownstream(ctx, []*message.DownstreamFilter{{SourceNodeID: "node"}})
+	vf.Assume(err == nil)
+	vf.Settle()
+	var open *message.DownstreamOpenRequest
+	for _, m := range tr.msgs() {
+		if r, ok := m.(*message.DownstreamOpenRequest); ok {
+			open = r
+		}
+	}
+	vf.Assume(open != nil)
+	alias := open.DesiredStreamIDAlias
+	info := &message.UpstreamInfo{SessionID: "s", SourceNodeID: "node", StreamID: zzStreamID1}
+	idX := &message.DataID{Name: "x", Type: "t"}
+	pt := func(b byte) []*message.DataPoint { return []*message.DataPoint{{ElapsedTime: 1, Payload: []byte{b}}} }
+	// (concrete representatives: the alias the next full form will receive, another small one, the largest;
+	// symbolic values through the byte codec cost minutes here and the step lemma C03.a covers all values)
+	badAlias := [...]uint32{1, 2, 0xffffffff}[vf.Choose("unannounced.alias", 3)]
+	p1, p2, p3 := byte(11), byte(22), byte(33)
+	which := vf.Choose("unannounced", 2) // 0: upstream alias, 1: data-id alias
+	// chunk 1 uses an alias nobody announced
+	if which == 0 {
+		tr.push(&message.DownstreamChunk{StreamIDAlias: alias, UpstreamOrAlias: message.UpstreamAlias(badAlias),
+			StreamChunk: &message.StreamChunk{SequenceNumber: 7, DataPointGroups: []*message.DataPointGroup{{DataIDOrAlias: idX, DataPoints: pt(p1)}}}})
+	} else {
+		tr.push(&message.DownstreamChunk{StreamIDAlias: alias, UpstreamOrAlias: info,
+			StreamChunk: &message.StreamChunk{SequenceNumber: 7, DataPointGroups: []*message.DataPointGroup{{DataIDOrAlias: message.DataIDAlias(badAlias), DataPoints: pt(p1)}}}})
+	}
+	// chunk 2 carries the full forms (which get aliases when it is consumed), chunk 3 as well
+	tr.push(&message.DownstreamChunk{StreamIDAlias: alias, UpstreamOrAlias: info,
+		StreamChunk: &message.StreamChunk{SequenceNumber: 8, DataPointGroups: []*message.DataPointGroup{{DataIDOrAlias: idX, DataPoints: pt(p2)}}}})
+	tr.push(&message.DownstreamChunk{StreamIDAlias: alias, UpstreamOrAlias: info,
+		StreamChunk: &message.StreamChunk{SequenceNumber: 9, DataPointGroups: []*message.DataPointGroup{{DataIDOrAlias: idX, DataPoints: pt(p3)}}}})
+	vf.Settle() // everything has arrived; the application has read nothing yet
+	c1, e1 := down.ReadDataPoints(ctx)
+	vf.Assert("unannounced-alias-is-an-error-not-a-misattributed-chunk", e1 != nil && c1 == nil)
+	c2, e2 := down.ReadDataPoints(ctx)
+	vf.Assert("next-chunk-delivered-in-order", e2 == nil && c2 != nil && c2.SequenceNumber == 8)
+	if c2 != nil {
+		vf.Assert("resolved-to-its-own-full-forms", c2.UpstreamInfo != nil && *c2.UpstreamInfo == *info && len(c2.DataPointGroups) == 1 &&
+			*c2.DataPointGroups[0].DataID == *idX && len(c2.DataPointGroups[0].DataPoints) == 1 && c2.DataPointGroups[0].DataPoints[0].Payload[0] == p2)
+	}
+	c3, e3 := down.ReadDataPoints(ctx)
+	vf.Assert("third-chunk-in-order", e3 == nil && c3 != nil && c3.SequenceNumber == 9 && c3.DataPointGroups[0].DataPoints[0].Payload[0] == p3)
+	var e4 error
+	blocked := vf.Blocked(func() { _, e4 = down.ReadDataPoints(ctx) })
+	vf.Assert("nothing-returned-twice", blocked)
+	_ = e4
+	conn.Close(ctx)
+	vf.Reach("end")
+}
+
+// C04.h: the ack write stalls (back-pressured link) while the application keeps reading: a chunk
+// consumed while an ack is being written is acknowledged by a later ack, exactly once, and an alias
+// first seen in it is announced - nothing falls between two acks.
+func zzC04hReadDuringAckWrite() {
+	b := zzNewBroker()
+	zzServeStreams(b)
+	serve := b.handler
+	inWrite := make(chan struct{}, 4)
+	release := make(chan struct{})
+	stalls := 0
+	b.handler = func(t *zzTr, m message.Message) bool {
+		if _, ok := m.(*message.DownstreamChunkAck); ok && stalls == 0 {
+			stalls++
+			inWrite <- struct{}{}
+			<-release // the write of the first ack does not return until the harness says so
+			return true
+		}
+		return serve(t, m)
+	}
+	conn := zzConnect(b)
+	tr := b.last()
+	ctx := context.Background()
+	down, err := conn.OpenDownstream(ctx, []*message.DownstreamFilter{{SourceNodeID: "node"}}, WithDownstreamAckFlushInterval(50*time.Millisecond))
+	vf.Assume(err == nil)
+	vf.Settle()
+	var alias uint32
+	for _, m := range tr.msgs() {
+		if r, ok := m.(*message.DownstreamOpenRequest); ok {
+			alias = r.DesiredStreamIDAlias
+		}
+	}
+	upA := &message.UpstreamInfo{SessionID: "sa", SourceNodeID: "node", StreamID: zzStreamID1}
+	upB := &message.UpstreamInfo{SessionID: "sb", SourceNodeID: "node", StreamID: zzStreamID2}
+	mk := func(seq uint32, up *message.UpstreamInfo, name string) *message.DownstreamChunk {
+		return &message.DownstreamChunk{StreamIDAlias: alias, UpstreamOrAlias: up, StreamChunk: &message.StreamChunk{SequenceNumber: seq,
+			DataPointGroups: []*message.DataPointGroup{{DataIDOrAlias: &message.DataID{Name: name, Type: "t"}, DataPoints: []*message.DataPoint{{ElapsedTime: 1}}}}}}
+	}
+	tr.push(mk(1, upA, "x"))
+	vf.Settle()
+	c1, e1 := down.ReadDataPoints(ctx)
+	vf.Assume(e1 == nil && c1 != nil)
+	vf.Advance(50 * time.Millisecond) // the ack for chunk 1 is being written ...
+	stalled := false
+	select {
+	case <-inWrite:
+		stalled = true
+	default:
+	}
+	vf.Assert("first-ack-being-written", stalled)
+	// ... and meanwhile chunk 2 (new upstream, new data id) arrives and is read
+	tr.push(mk(2, upB, "y"))
+	vf.Settle()
+	var c2 *DownstreamChunk
+	var e2 error
+	read2 := false
+	go func() { c2, e2 = down.ReadDataPoints(ctx); read2 = true }()
+	vf.Settle()
+	close(release)
+	vf.Settle()
+	vf.Assert("second-chunk-read", read2 && e2 == nil && c2 != nil && c2.SequenceNumber == 2)
+	vf.Advance(50 * time.Millisecond)
+	vf.Advance(50 * time.Millisecond)
+	acked := map[uint32]int{}
+	upAnnounced, idAnnounced := 0, 0
+	lastID := uint32(0)
+	for _, m := range tr.msgs() {
+		if a, ok := m.(*message.DownstreamChunkAck); ok {
+			vf.Assert("ack-ids-increase-from-1", a.AckID == lastID+1)
+			lastID = a.AckID
+			for _, r := range a.Results {
+				acked[r.SequenceNumberInUpstream]++
+			}
+			for _, v := range a.UpstreamAliases {
+				if *v == *upB {
+					upAnnounced++
+				}
+			}
+			for _, v := range a.DataIDAliases {
+				if v.Name == "y" {
+					idAnnounced++
+				}
+			}
+		}
+	}
+	vf.Assert("every-consumed-chunk-acked-exactly-once", acked[1] == 1 && acked[2] == 1 && len(acked) == 2)
+	vf.Assert("aliases-seen-during-the-write-are-announced-once", upAnnounced == 1 && idAnnounced == 1)
+	conn.Close(ctx)
 	vf.Reach("end")
 }
